@@ -293,6 +293,21 @@ class _S:
         return ops.getitem(b if isinstance(b, Sym) else Sym(ops.term(b), 'bytes'), slice(lo, hi), None)
 
     @staticmethod
+    def byte_at(x, j):
+        """element j of a bytes value or bytearray, as an int"""
+        jt = ops.term(j, 'int')
+        if isinstance(x, SymSeq):
+            return Sym(z3.Select(x.arr, jt), 'int')
+        src = ops.ba_source(ops.term(x))
+        if src is not None:
+            return Sym(z3.Select(src[0], jt), 'int')
+        return Sym(z3.BV2Int(ops.term(x)[jt]), 'int')
+
+    @staticmethod
+    def xor8(a, b):
+        return Sym(ops.int_bitop('BitXor', ops.term(a, 'int'), ops.term(b, 'int')), 'int')
+
+    @staticmethod
     def toint(x):
         """floor of a non-negative real (python int() on non-negative floats)"""
         return Sym(z3.ToInt(ops.term(x, 'real')), 'int')
